@@ -288,6 +288,12 @@ impl SimThread {
         }
     }
 
+    /// advance this thread's clock without jitter or oversleep faults (internal steps of an
+    /// emulated blocking call; the call as a whole gets one jitter sample through `sleep(0)`)
+    pub fn sleep_raw(&mut self, ns: u64) {
+        self.advance(ns);
+    }
+
     pub fn sleep(&mut self, ns: u64) {
         let idx = self.sleeps;
         self.sleeps += 1;
